@@ -216,7 +216,14 @@ func (g *Gen) newSQLBucket(sym string, tfi int, cols []sqlCol, nrows int, tags m
 			v := float64(g.Intn(7))
 			switch {
 			case c.typ == "float32" || c.typ == "float64":
-				v += float64(g.Pick(0, 25, 50, 75)) / 100
+				// fractions that are exact in binary (.25 .5 .75) and fractions that are not (.2 .7 .1):
+				// for the latter a FLOAT32 column stores float32(v) != v, so `col = 3.2` only matches
+				// when the literal is narrowed to the column's precision
+				f := g.Pick(0, 25, 50, 75, 20, 70, 10)
+				v += float64(f) / 100
+				if f == 20 || f == 70 || f == 10 {
+					tags["float:inexact_value:"+c.typ] = true
+				}
 				if g.Intn(8) == 0 {
 					v = -v
 				}
